@@ -1,2 +1,10 @@
 -- Root of the `RdfModel` library: imports every module so `lake build` checks everything.
 import RdfModel.Model.Rune
+import RdfModel.Model.Description
+import RdfModel.Spec.GraphIso
+import RdfModel.Props.C17
+import RdfModel.Props.C19
+import RdfModel.Props.C17Facts
+import RdfModel.Props.C19Facts
+
+import RdfModel.Props.C12
